@@ -60,6 +60,10 @@ def cases(tier, seed):
                 continue
             for cleaned in (True, False):
                 yield dict(bi=bi, rot=rot, cleaned=cleaned)
+    # request-order sweep: every ratio/derived column together with its reference column, in both orders, and alone
+    for bi in (1, 2, 3):
+        for cleaned in (True, False):
+            yield dict(kind='orders', bi=bi, rot=bi, cleaned=cleaned)
 
 
 _ENV = None
@@ -113,7 +117,44 @@ def fam(col):
     return re.sub(r'_(L2)?com$', '', col)
 
 
+def run_orders(case):
+    """the unit factors must not depend on which columns are co-requested or in which order"""
+    bi, rot, cleaned = case['bi'], case['rot'], case['cleaned']
+    box, vel = BOXVEL[bi]
+    cat, raw, cl = build(bi, rot)
+    zdir, _ = _ENV.mount(cat)
+    full = {True: _ENV.load(zdir, cleaned=cleaned, fields='all', convert_units=True).halos,
+            False: _ENV.load(zdir, cleaned=cleaned, fields='all', convert_units=False).halos}
+    K = kinds()
+    probs, nt = [], []
+    n = 0
+    for col, (kind, rawname, ref) in K.items():
+        if ref is None:
+            continue
+        others = [ref]
+        if kind == 'velocity-derived':
+            com = col.split('_', 1)[1]
+            others = [ref, f'sigmavMin_{com}', f'sigmavMaj_{com}']
+        lists = [[col]] + [[col, o] for o in others] + [[o, col] for o in others] + [[col] + others, others + [col]]
+        for fl in lists:
+            for conv in (True, False):
+                h = _ENV.load(zdir, cleaned=cleaned, fields=list(fl), convert_units=conv).halos
+                n += 1
+                for c in fl:
+                    a, b = np.asarray(h[c]), np.asarray(full[conv][c])
+                    if a.dtype != b.dtype or not np.array_equal(a, b, equal_nan=True):
+                        i = int(np.argmax(~((a == b) | ((a != a) & (b != b))).reshape(len(a), -1).all(axis=1)))
+                        probs.append(dict(sig=f'units:request-order:{fam(c)}',
+                                          msg=f'Box={box} Vel={vel} cleaned={cleaned} convert_units={conv} fields={fl}: column {c} row {i} = {a[i].tolist()} but {b[i].tolist()} in the all-fields load'))
+                nt.append((tuple(fl), conv, cleaned, bi))
+    seen = set()
+    probs = [p for p in probs if not (p['sig'] in seen or seen.add(p['sig']))]
+    return dict(problems=probs, evals=n, nt=nt, extra=dict(order_loads=n))
+
+
 def run(case):
+    if case.get('kind') == 'orders':
+        return run_orders(case)
     bi, rot, cleaned = case['bi'], case['rot'], case['cleaned']
     box, vel = BOXVEL[bi]
     cat, raw, cl = build(bi, rot)
